@@ -275,6 +275,7 @@ def run(ctx):
     bigs = [(0, "unrelated", 0), (1, "unrelated", 0), (10, "run", 0), (100, "unrelated", 0), (2000, "run", 0)]
     bigs += [(511, "unrelated", p) for p in ((6, 7, 8, 9) if quick else range(0, 14))]
     bigs += [(600, "unrelated", 0), (2000, "unrelated", 0)] if not quick else [(600, "unrelated", 0)]
+    bigs += [(40, "sparse", 0), (300, "sparse", 0), (700, "sparse", 0)] + ([] if quick else [(2500, "sparse", 0)])
     for n, shape, pad in bigs:
         cases.append(c02eng.big_exclusion_case(r, n, shape, pad))
         tags.append({"big": (n, shape, pad), "ranged_bytes": c02eng.ranged_len_unrelated(n, pad) if shape == "unrelated" else None})
